@@ -6,6 +6,7 @@ import sys
 import framework as fw
 sys.path.insert(0, os.path.dirname(os.path.abspath(__file__)))
 from framework import REPO
+import c19_lines
 
 TIE = ["Nsq.Tie.ToolsToFile", "Nsq.Tie.ToolsToFileFn"]
 PROPS = ["Nsq.Props.C19", "Nsq.Props.C19Name", "Nsq.Props.C19Disc", "Nsq.Props.C19Ops",
@@ -98,14 +99,16 @@ def run(ctx):
         "writers: no other process renames, truncates or overwrites the tool's files while it runs; other processes may create "
         "new files (Ev.ext) and - plain append mode only - another O_APPEND writer (a second router of the same build: "
         "--filename-format without <TOPIC>) may append whole records with one write(2) each (Ev.extAppend; that is what fix F46 "
-        "makes every router do; on the tree without F46 two routers sharing a file is the open finding two-routers-one-file)",
-        "fin_owns_line_partial (tree without fix F47, plain append mode): every pre-existing file and every file another process "
+        "makes every router do; before F46 (/repo 85f4c48) two routers sharing a file tore each other's records: finding two-routers-one-file, fixed, replayed on every run)",
+        "fin_owns_line_this_tree needs none of the following (F46 85f4c48 + F47 efaf20c are committed, ties accept only their skeletons); "
+        "fin_owns_line_partial (tree BEFORE fix F47, plain append mode): every pre-existing file and every file another process "
         "drops is empty or ends in \"\\n\" (no writer died inside a record, no short write); unconditional with F47 "
-        "(fin_owns_line_fixed) and in O_EXCL modes (fin_owns_line_excl); refuted without (fin_owns_line_full_false, open "
-        "finding torn-tail-append); a short write(2) is not a model primitive - its effect is a torn tail in the next run's directory",
+        "(fin_owns_line_fixed) and in O_EXCL modes (fin_owns_line_excl); refuted without (fin_owns_line_full_false, "
+        "finding torn-tail-append, fixed, replayed on every run); a short write(2) is not a model primitive - its effect is a torn tail in the next run's directory",
         "tool_fin_implies_durable_partial: the consumer library does not give up (max_attempts = 0 or attempts <= "
-        "max_attempts); with the default max_attempts=5 the full tool-level statement is refuted (open finding "
-        "gives-up-after-max-attempts); all router-level theorems are unconditional",
+        "max_attempts); with go-nsq's default max_attempts=5 the full tool-level statement is refuted (finding "
+        "gives-up-after-max-attempts, fixed by F43 = /repo 924c537: main() sets cfg.MaxAttempts = 0, shipped_tool_safe; an operator's "
+        "--consumer-opt max_attempts,N re-enables the give-up); all router-level theorems are unconditional",
     ]
     ctx.rule = ("one case = one generated script (configuration: gzip, rotate-size, rotate-interval, work-dir, "
                 "skip-empty-files, max-in-flight, sync-interval, datetime format, filename format with/without <REV>; "
@@ -160,7 +163,12 @@ def run(ctx):
                 continue
             ops = open(os.path.join(out, "tofile.ops")).read().splitlines()
             impl = open(os.path.join(out, "tofile.impl")).read().splitlines()
-            rc, mout = ctx.driver("e8", stdin_path=os.path.join(out, "tofile.ops"))
+            # the model runs with the committed shapes oneWrite = sealsTail = 1 (F46, F47), not with what the harness probed
+            probed = c19_lines.committed_shape_ops(os.path.join(out, "tofile.ops"), os.path.join(out, "tofile.model.ops"))
+            if probed - {("1", "1")}:
+                corr_broken.append("probe of router()/updateFile() on the real code: (one_write, seals_tail) = %s, expected (1, 1) "
+                                   "(F46 85f4c48, F47 efaf20c)" % sorted(probed))
+            rc, mout = ctx.driver("e8", stdin_path=os.path.join(out, "tofile.model.ops"))
             model = mout.splitlines()
             # bookkeeping
             case_of, cur = [], -1
@@ -179,6 +187,9 @@ def run(ctx):
                     hist[k] = int(v)
             cc = sorted(set(o.split()[9] for o in ops if o.startswith("tf conf") and len(o.split()) >= 10))
             ctx.corr["close_clears_out_probe"] = cc   # ["0"]: tree before fix F44, ["1"]: with it (model parameter Cfg.closeClears)
+            if cc and cc != ["0"]:
+                # F44 (Close() clears f.out) is NOT committed and stays a proposal: the committed shape is expected (round 10)
+                corr_broken.append("probe of Close() on the real code: closeClears = %s, expected 0 (fixes/F44 is a proposal, not in /repo)" % cc)
             ctx.corr.setdefault("runs", []).append({"label": label, "histogram": hist,
                                                      "oracle": [l for l in log.splitlines() if l.startswith("ORACLE-DONE")]})
             for o, i in list(zip(ops, impl))[1:6]:
@@ -231,7 +242,6 @@ def run(ctx):
         disc_leg(ctx, parent, corr_broken)
         xdev_leg(ctx, parent, corr_broken)
         # ---- c19a (audit 7, C5/C4): line-level replays on the real FileLogger, probes of fixes F46/F47 ----
-        import c19_lines
         c19_lines.lines_leg(ctx, parent, corr_broken)
     # known finding replay on the REAL binary: the tool as shipped (router behind go-nsq's handlerLoop)
     if parent and not ctx.replay_in:
